@@ -133,6 +133,68 @@ func (e *Engine) makeError(st *State, msg string) Value {
 	return IfaceVal{typ: types.NewPointer(t), v: PtrVal{obj: id}}
 }
 
+// goValue converts a concrete interface value of a simple kind to a host Go value.
+func (e *Engine) goValue(st *State, v Value) (interface{}, bool) {
+	iv, ok := v.(IfaceVal)
+	if !ok || iv.typ == nil {
+		return nil, false
+	}
+	b, isBasic := iv.typ.(*types.Basic)
+	if !isBasic {
+		if sl, ok := iv.typ.(*types.Slice); ok {
+			if eb, ok := sl.Elem().(*types.Basic); ok && eb.Kind() == types.Uint8 {
+				sv := iv.v.(SliceVal)
+				out := make([]byte, 0, sv.len)
+				for _, x := range e.sliceSlots(st, sv) {
+					t := x.(*Term)
+					if !t.IsConst() {
+						return nil, false
+					}
+					out = append(out, byte(t.val))
+				}
+				return out, true
+			}
+		}
+		return nil, false
+	}
+	switch x := iv.v.(type) {
+	case *Term:
+		if !x.IsConst() {
+			return nil, false
+		}
+		switch b.Kind() {
+		case types.Bool:
+			return x.val == 1, true
+		case types.Int:
+			return int(x.Signed()), true
+		case types.Int8:
+			return int8(x.Signed()), true
+		case types.Int16:
+			return int16(x.Signed()), true
+		case types.Int32:
+			return int32(x.Signed()), true
+		case types.Int64:
+			return x.Signed(), true
+		case types.Uint:
+			return uint(x.val), true
+		case types.Uint8:
+			return uint8(x.val), true
+		case types.Uint16:
+			return uint16(x.val), true
+		case types.Uint32:
+			return uint32(x.val), true
+		case types.Uint64:
+			return x.val, true
+		}
+	case StrVal:
+		s, ok := e.concreteString(st, x)
+		return s, ok
+	case FloatVal:
+		return x.f, true
+	}
+	return nil, false
+}
+
 func nop(e *Engine, st *State, c *callCtx) {
 	e.finish(st, c, e.zeroResults(c.fn))
 }
@@ -340,7 +402,26 @@ func builtinModels() map[string]modelFn {
 
 	// ----- fmt / logging: opaque -----
 	fmtStr := func(e *Engine, st *State, c *callCtx) { e.finish(st, c, e.constString("<fmt>")) }
-	m["fmt.Sprintf"] = fmtStr
+	m["fmt.Sprintf"] = func(e *Engine, st *State, c *callCtx) {
+		// concrete format + concrete simple arguments: real formatting; otherwise opaque text
+		format, ok := e.concreteString(st, c.args[0].(StrVal))
+		if ok {
+			var goArgs []interface{}
+			for _, a := range e.sliceSlots(st, c.args[1].(SliceVal)) {
+				gv, ok2 := e.goValue(st, a)
+				if !ok2 {
+					ok = false
+					break
+				}
+				goArgs = append(goArgs, gv)
+			}
+			if ok {
+				e.finish(st, c, e.newString(st, e.byteVals([]byte(fmt.Sprintf(format, goArgs...)))))
+				return
+			}
+		}
+		e.finish(st, c, e.constString("<fmt>"))
+	}
 	m["fmt.Sprint"] = fmtStr
 	m["fmt.Sprintln"] = fmtStr
 	m["fmt.Errorf"] = func(e *Engine, st *State, c *callCtx) { e.finish(st, c, e.makeError(st, "<fmt.Errorf>")) }
@@ -418,6 +499,12 @@ func builtinModels() map[string]modelFn {
 
 var modelPrefixes = []string{
 	hertz + "pkg/common/hlog.",
+	"(*" + hertz + "pkg/common/hlog.defaultLogger).",
+	"(*" + hertz + "pkg/common/hlog.systemLogger).",
+}
+
+func hlogFatal(e *Engine, st *State, c *callCtx) {
+	e.goPanic(st, "hlog.Fatal called (process would exit)")
 }
 
 func (e *Engine) findModel(name string) (modelFn, bool) {
@@ -426,6 +513,13 @@ func (e *Engine) findModel(name string) (modelFn, bool) {
 	}
 	for _, p := range modelPrefixes {
 		if strings.HasPrefix(name, p) {
+			rest := name[len(p):]
+			if rest == "init" || strings.HasPrefix(rest, "init#") || rest == "SystemLogger" || rest == "DefaultLogger" || rest == "SetSystemLogger" || rest == "SetLogger" || strings.HasPrefix(rest, "Level") {
+				return nil, false
+			}
+			if strings.Contains(rest, "Fatal") {
+				return hlogFatal, true
+			}
 			return nop, true
 		}
 	}
